@@ -265,6 +265,10 @@ def decode(data, keep_raw=False, merge=True):
                     i += 2
                     continue
                 body = text[i + 2:end]
+                if any(ord(ch_) < 0x20 or ord(ch_) == 0x7f for ch_ in body):
+                    # an ESC (or another control character) inside the string ends / cancels it on a real terminal: one
+                    # sequence was written into another
+                    row.malformed.append('control character inside OSC %r' % body[:60])
                 if body.startswith('8;'):
                     rest = body[2:]
                     semi = rest.find(';')
